@@ -151,3 +151,12 @@ PROPS["C20"] = {"engine": "par", "configs": {"quick": ["par"], "thorough": ["par
                                "reference": ["observation log of the sequential (PARALLELIZE=OFF) build", "vector-clock happens-before race detector", "deadlock = no runnable thread"]},
                 "assumptions": ["accesses inside uninstrumented libraries (libstdc++.so internals) are invisible to the race detector", "main-thread accesses create shadow cells only while some worker is busy"],
                 "sim_time_counter": "sched.steps"}
+
+
+# quick tier = a fixed number of runs per property (about what 35-40 s give on the 16-core sandbox), so that the
+# work done - and the evidence written - does not depend on how loaded the machine is; the time budget x 6 is only a cap
+QUICK_RUNS = {"C01": 16800, "C02": 14000, "C03": 8400, "C04": 12600, "C05": 15400, "C06": 10500, "C07": 18200, "C08": 15400, "C09": 5600, "C10": 15400,
+              "C11": 5300, "C12": 18200, "C13": 9800, "C14": 4800, "C17": 30800, "C18": 16800, "C19": 9100, "C20": 7800}
+for _p, _n in QUICK_RUNS.items():
+    PROPS[_p]["quick_runs"] = _n
+PROPS["C18"]["parts"][0]["enumerated"] = True  # the IO part enumerates a finite list: never cut by a run count
